@@ -150,6 +150,10 @@ func init() {
 		fr.i.x.res.Covers = append(fr.i.x.res.Covers, a[0].(string))
 		return nil
 	})
+	reg("SchedulesDone", func(fr *frame, a []value) value {
+		fr.i.mapOrderFrozen = true
+		return nil
+	})
 	reg("Emit", func(fr *frame, a []value) value {
 		fr.i.x.res.Emits[a[0].(string)] = a[1].(string)
 		return nil
